@@ -208,6 +208,11 @@ def scripted_specs():
     out.append(dict(base, vp="MAJOR.MINOR.PATCH", old="1.2.3", flags=["--patch"], raw_entries=[("docs/*.md", ["Version: {version}"]), ("docs/index.md", ["pip install demo=={version}"])], files=[
         mk("docs/index.md", ["Version: {version}", "pip install demo=={version}"], [[O(0)], [T("run "), O(1)]]),
         mk("docs/changelog.md", ["Version: {version}"], [[O(0)], [T(hist)]])]))
+    # the match of a later pattern ENCLOSES the match of an earlier one on one line (it is then skipped there) and stands apart from it on
+    # another line; the version grows in length
+    out.append(dict(base, vp="MAJOR.MINOR.PATCH", old="1.2.9", flags=["--patch"], files=[
+        mk("conf.py", ["{version}", 'version = "{version}"'],
+           [[T('version = "'), O(0), T('"  # keep in sync')], [T("see "), O(0), T(" and "), O(1), T(" below")], [T("end")]])]))
     # a version file that consists of nothing but the version, without a final newline
     out.append(dict(base, vp="MAJOR.MINOR.PATCH", old="1.4.2", flags=["--patch"], files=[
         mk("VERSION", ["{version}"], [[O(0)]], final_newline=False)]))
